@@ -218,6 +218,10 @@ Fixpoint map_back_from (i : Z) (dollars : list Z) (pos : Z) : Z :=
   end.
 Definition map_back (dollars : list Z) (pos : Z) : Z := map_back_from 0 dollars pos.
 
+(* dollar_replacer.map_back_patch(textbuilder.make_patch(text, a, b, new)) *)
+Definition map_back_patch (dollars : list Z) (a b : Z) (new : str) : patch :=
+  Build_patch (map_back dollars a) (map_back dollars b) new.
+
 Definition undollar_text (formula : str) (dollars : list Z) : str :=
   apply_patches formula (map (fun d => Build_patch d (d + 1) (lit "rec.")) dollars).
 
@@ -225,7 +229,8 @@ Definition undollar_text (formula : str) (dollars : list Z) : str :=
 (* predicate_formula.process_renames *)
 Inductive pr_result :=
 | PRText (s : str)        (* the returned formula *)
-| PRSyntaxError.          (* a SyntaxError escapes to the caller *)
+| PRSyntaxError           (* a SyntaxError escapes to the caller *)
+| PRInternal (what : string).   (* another exception escapes (never, by the bridging lemmas) *)
 
 Definition rename_patches (r : renamer) (dollars : list Z) (ents : list entity) : list patch :=
   flat_map (fun ent =>
